@@ -10,7 +10,7 @@ import numpy as np
 
 from ..common import q2s, run_driver, seed_rng
 
-PROP_MODS = ['Stbem.Props.C16', 'Stbem.Props.QuadtreeTie']
+PROP_MODS = ['Stbem.Props.C16', 'Stbem.Props.QuadtreeTie', 'Stbem.Props.QuadtreeSim']
 RULE = ('lock-step correspondence of src/initial_mesh.py (InitialMesh driven in-process; dyadic floats read as exact '
         'rationals) with the Lean model Stbem.Model.Quadtree: after every operation the answer (children ids / '
         'returned element / vertex index / assertion tag) and the canonical dump (leaves sorted by index with '
@@ -25,7 +25,9 @@ RULE = ('lock-step correspondence of src/initial_mesh.py (InitialMesh driven in-
         'uniform_refine, refine_msh_bdr, the domain meshes, with the dictionaries nbrs / parent_edge / __bisect_edge as '
         'real maps keyed by vertex-object pairs); every `qt ...` request is answered a second time by the generated '
         'functions on a state of their own (`gqt ...`, Driver/GQuadtreeCmd.lean) and must give the same answer and dump; '
-        'Props/QuadtreeTie.lean ties the generated functions to the hand model. '
+        'Props/QuadtreeTie.lean ties the generated functions to the hand model; Props/QuadtreeSim.lean proves that one generated '
+        'refine simulates one model refine under the coherence invariant of the three dictionaries (RefineSim CohInv), for '
+        'all states reachable from the generated UnitSquare() / LShape(). '
         'search: model-independent oracle on the real mesh. '
         'non-trivial = balance closure refined at least one extra element, or a targeting call with >= 2 rounds; '
         'distinct = distinct (domain, operation sequence / segment, orientation, end-point type).')
